@@ -15,7 +15,7 @@ variable (T : Tables)
 
 def tr (c : Ctx) : Forest → Forest
   | .nil => .nil
-  | .leaf it k nx => .leaf it k (tr c nx)
+  | .leaf it k nx => .leaf it k (tr (nextCtx T c it) nx)
   | .endl it nx => .endl (reEnd it.id it.label (endText T c)) (tr c nx)
   | .blk it ri ch kids nx => .blk (reHdr T it ri ch) ri ch (tr ch kids) (tr c nx)
 
@@ -63,7 +63,7 @@ theorem LRel_flat_pr : ∀ (t : Forest) (c : Ctx),
   | leaf it k nx ih =>
     intro c
     simp only [flat, pr, items, List.map_cons, reItem]
-    exact LRelL.cons ⟨rfl, id⟩ (ih c)
+    exact LRelL.cons ⟨rfl, id⟩ (ih _)
   | endl it nx ih =>
     intro c
     simp only [flat, pr, items, List.map_cons, reItem]
@@ -108,7 +108,9 @@ theorem step_putback (c : Ctx) (it : Item) (h : step T c it = .putback) :
                 · simp
                 · exact ih
               · split
-                · split <;> simp
+                · split
+                  · simp
+                  · split <;> simp
                 · simp
             · exact ih
 
